@@ -8,8 +8,10 @@ frame, and drawing the emulator into a host window of that size yields those sam
 the emulator gives to Vaxis's start-up queries are understood by Vaxis as exactly the features the
 emulator implements."
 -/
-import VaxisModel.Props.C12Caps
-import VaxisModel.Props.C12Startup
+import VaxisModel.Props.C12Any
+import VaxisModel.Props.C12Timers
+import VaxisModel.Props.C12StartAny
+import VaxisModel.Lemmas.RenderLink
 
 namespace VaxisModel.Props.C12Main
 open VaxisModel.Model.Render VaxisModel.Spec VaxisModel.Spec.Display
@@ -20,7 +22,8 @@ open VaxisModel.Spec.Startup (Opts)
 open VaxisModel.Props.C01Display (FrameIn HState)
 open VaxisModel.Props.C12 (emuCaps startState)
 open VaxisModel.Props.C12Resize (LinkedR Seg)
-open VaxisModel.Props.C12Caps
+open VaxisModel.Props.C12Caps VaxisModel.Props.C12Any VaxisModel.Props.C12Timers
+open VaxisModel.Lemmas.C12Vocab (LpOk)
 open VaxisModel.Props.C12Read (EncOk wantCursor)
 open VaxisModel.Model.C12Read
 open VaxisModel.Model.EmuDraw
@@ -31,74 +34,101 @@ def capsOf (colorterm : Bool) : Model.Render.Caps := { emuCaps with rgb := color
 
 instance (b : Bool) : CapsOk (capsOf b) := ⟨rfl, rfl, rfl⟩
 
+/-- The decoding hypotheses of the composition theorems are those of the hex decoding of the renderer
+    model's opaque strings (`hx.Hex` in the harness, `Lemmas.RenderLink.hexDec`): blank, empty string, and —
+    since the F112b repair — no `;` in any OSC 8 parameter field the renderer writes. -/
+theorem hexDec_ok : Lemmas.RenderLink.hexDec "20" = [32] ∧ Lemmas.RenderLink.hexDec "" = [] ∧ LpOk Lemmas.RenderLink.hexDec :=
+  ⟨by decide, by decide, Lemmas.RenderLink.lpField_no_semicolon⟩
+
 /-- **C12, end to end over the models.**
 
-    (1) *The start-up dialogue.* With the emulator model's replies to `sendQueries()` as the inputs of
-    Vaxis' input goroutine (any emulator state, host background reported or not), every time-out-free,
-    maximal run of C07's start-up system — every interleaving of the input goroutine with `New()` —
-    ends with `New()` past `applyQuirks` and the capability record
+    (1a) *The start-up dialogue, no timer firing.* With the emulator model's replies to `sendQueries()`
+    as the inputs of Vaxis' input goroutine (any emulator state, host background reported or not), every
+    time-out-free, maximal run of C07's start-up system — every interleaving of the input goroutine with
+    `New()` — ends with `New()` past `applyQuirks` and the capability record
     `{sixels, unicodeCore, osc11 iff reported, rgb iff COLORTERM}`: the renderer's capability set is
     `capsOf o.colorterm`.
 
-    (2) *The start state.* The emulator model fed everything the real Vaxis writes at start-up (20×6)
-    is on the alternate screen, blank, at rest.
+    (1b) *… and whatever the timers do.* In EVERY state of EVERY run — the 50 ms timer of the
+    explicit-width probe, the 3 s context of the collection loop and the clipboard time-out firing
+    whenever their guards allow, any environment, any part of the emulator's replies delivered — the
+    renderer's capability set is `emuCaps`, possibly with direct colour (only if `COLORTERM` says so):
+    one of the capability sets of (3).
 
-    (3) *Every history.* From any such state, for every history of segments — the host gives the
-    emulator a size 1×1 … 65535², the application renders any number of admissible frames at that
-    size, the first a refresh — rendered under that capability set, the emulator fed `resize` and what
-    its parser delivers for the renderer's tokens (grapheme clustering included, no two graphemes of a
-    frame merging) never panics, and after the last frame of the last segment (the hypotheses are
-    closed under truncation: after EVERY frame) — at the size of that segment —
+    (2) *The start state, at every size.* The emulator model, started as `New()` + `resize(w, h)` for any
+    size 1×1 … 65535² and fed everything the real Vaxis writes at start-up, is on the alternate screen,
+    blank, at rest (`Props/C12StartAny`: followed symbolically; 20×6 also by kernel evaluation).
+
+    (3) *Every history, on either screen, under any capability set the emulator implements.* From any
+    state of an application whose last flush is complete (`LinkedP`; on the alternate screen: (2)), for
+    every history of segments — the host gives the emulator a size 1×1 … 65535² (on the primary screen
+    the old content is reflowed), the application renders any number of admissible frames at that size,
+    the first a refresh — rendered under ANY capability set without explicit width and synchronized
+    output (`CapsOkU`: with or without direct colour and styled underlines), the emulator fed `resize` and
+    what its parser delivers for the renderer's tokens (grapheme clustering included, no two graphemes of
+    a frame merging) never panics, stays on the screen it is on, and after the last frame of the last
+    segment (the hypotheses are closed under truncation: after EVERY frame) — at the size of that segment —
     * the emulator's grid read back is the application's screen and its cursor read back is the
       requested cursor (equations), and
     * `Draw` into a host window of that size does not resize, makes exactly one `SetCell` per glyph
       cell of the application's screen, each carrying a cell that shows it, and shows the
-      application's cursor in a focused window. -/
-theorem c12_end_to_end (colorterm : Bool) :
-    -- (1)
-    (∀ (hostBg : Option (Nat × Nat × Nat)) (e : Emu) (p : Params), 8 ≤ p.qcap →
+      application's cursor in a focused window.
+    No hypothesis about hyperlink parameters any more (F112b repaired: /repo 3525279). -/
+theorem c12_end_to_end :
+    -- (1a)
+    (∀ (colorterm : Bool) (hostBg : Option (Nat × Nat × Nat)) (e : Emu) (p : Params), 8 ≤ p.qcap →
       VaxisModel.Lemmas.InputLoop.Kinds.safe p.kinds → p.cursorCap ≠ 0 →
       ∀ (o : Opts), o.envUnset = true → o.colorterm = colorterm →
       ∀ (ls : List VaxisModel.Model.Startup.Label) (st : St), inputsOf ls = startupReplies hostBg e →
         (∀ l ∈ ls, isTimeout l = false) → VaxisModel.Model.Startup.run p o (St.init o) ls = some st →
         C12Startup.Quiescent p o st →
-        st.phase = .ready ∧ st.sys.dropped = 0 ∧
-        ({ rgb := st.sys.vs.caps.rgb, styledUnderlines := st.sys.vs.caps.styledUnderlines,
-           explicitWidth := st.sys.vs.caps.explicitWidth, sync := st.sys.vs.caps.synchronizedUpdate } : Model.Render.Caps) = capsOf colorterm) ∧
+        st.phase = .ready ∧ st.sys.dropped = 0 ∧ rendererCaps st.sys.vs.caps = capsOf colorterm) ∧
+    -- (1b)
+    (∀ (hostBg : Option (Nat × Nat × Nat)) (e : Emu) (p : Params) (o : Opts)
+      (ls : List VaxisModel.Model.Startup.Label) (st : St), (∀ s ∈ inputsOf ls, s ∈ startupReplies hostBg e) →
+        VaxisModel.Model.Startup.run p o (St.init o) ls = some st →
+        rendererCaps st.sys.vs.caps = capsOf st.sys.vs.caps.rgb ∧ (st.sys.vs.caps.rgb = true → o.colorterm = true)) ∧
     -- (2)
     (∀ (dec : String → G) (cw : String → Nat), dec "" = [] →
-      ∃ e0, runOps (Lemmas.EmuRefine.newState 20 6) startupAll = .ok e0 ∧ LinkedR dec cw (startState 20 6) e0 6 20) ∧
+      ∀ (w h : Int), 1 ≤ w → w ≤ 65535 → 1 ≤ h → h ≤ 65535 →
+      ∃ e0, runOps (Lemmas.EmuRefine.newState w h) startupAll = .ok e0 ∧
+        LinkedP dec cw (startState w.toNat h.toNat) e0 h.toNat w.toNat ∧ e0.mode.smcup = true) ∧
     -- (3)
-    (∀ (merges : String → String → Bool) (cat : String → String → String) (enc : G → String) (dec : String → G)
-      (cw : String → Nat), cw "20" = 1 → dec "20" = [32] → dec "" = [] →
-      ∀ (segs : List Seg) (rows cols : Nat) (s : HState) (e : Emu), LinkedR dec cw s e rows cols →
-        (∀ sg ∈ segs, SegOk (capsOf colorterm) dec cw sg) →
+    (∀ (caps : Model.Render.Caps) [CapsOkU caps] (merges : String → String → Bool) (cat : String → String → String)
+      (enc : G → String) (dec : String → G) (cw : String → Nat), cw "20" = 1 → dec "20" = [32] → dec "" = [] → LpOk dec →
+      ∀ (segs : List Seg) (rows cols : Nat) (s : HState) (e : Emu), LinkedP dec cw s e rows cols →
+        (∀ sg ∈ segs, SegOkU caps dec cw sg) →
         (∀ sg ∈ segs, ∀ fi ∈ sg.frames, C12.NoMergeGrid merges fi.next) →
         ∀ (sg : Seg) (fi : FrameIn), segs.getLast? = some sg → sg.frames.getLast? = some fi → EncOk enc dec fi →
         ∃ (e' : Emu) (per : List (List DrawCall)),
-          runSegsM (capsOf colorterm) merges cat dec cw s e segs = .ok e' ∧
-          readScreen enc e'.active = Expected.expectedC cw (capsOf colorterm) fi.next ∧
+          runSegsM caps merges cat dec cw s e segs = .ok e' ∧
+          e'.mode.smcup = e.mode.smcup ∧
+          readScreen enc e'.active = Expected.expectedC cw caps fi.next ∧
           readCursor e' = wantCursor fi ∧
           draw true Model.Emu.Fixes.current e' sg.cols sg.rows true =
             .ok ({ e' with hasVx := true }, per.flatten, shownCursor true e' true) ∧
           per.length = sg.rows ∧
           shownCursor true e' true = (if fi.cursor.visible then some (fi.cursor.col, fi.cursor.row) else none)) := by
-  refine ⟨?_, ?_, ?_⟩
-  · intro hostBg e p hq hk hcap o henv hct ls st hin hnt hrun hquiet
+  refine ⟨?_, ?_, ?_, ?_⟩
+  · intro colorterm hostBg e p hq hk hcap o henv hct ls st hin hnt hrun hquiet
     obtain ⟨h1, _, h3, h4⟩ := C12Startup.emu_dialogue_completes_any hostBg e p hq hk hcap o henv ls st hin hnt hrun hquiet
     refine ⟨h1, h3, ?_⟩
     rw [h4, hct]
     rfl
-  · intro dec cw hemp
-    exact C12Resize.emu_real_startup_on_alt dec cw hemp
-  · intro merges cat enc dec cw hsp hd hemp segs rows cols s e hl hok hnm sg fi hsg hfi henc
+  · intro hostBg e p o ls st hin hrun
+    obtain ⟨h1, _, h3⟩ := emu_dialogue_caps_capsOk hostBg e p o ls st hin hrun
+    exact ⟨h1, h3⟩
+  · intro dec cw hemp w h hw1 hw2 hh1 hh2
+    obtain ⟨e0, h0, hl⟩ := C12StartAny.emu_real_startup_every_size dec cw hemp w h hw1 hw2 hh1 hh2
+    exact ⟨e0, h0, LinkedR.toP hl, hl.alt⟩
+  · intro caps _ merges cat enc dec cw hsp hd hemp hlp segs rows cols s e hl hok hnm sg fi hsg hfi henc
     obtain ⟨e', per, hr, hdraw, hlen, _, hcur⟩ :=
-      emu_draw_across_resizes (caps := capsOf colorterm) dec cw hsp hd hemp segs rows cols s e hl hok sg fi hsg hfi true
-    obtain ⟨e'', hr', h⟩ := emu_shows_across_resizes (caps := capsOf colorterm) dec cw hsp hd hemp segs rows cols s e hl hok
+      emu_draw_across_resizes_any (caps := caps) dec cw hsp hd hemp hlp segs rows cols s e hl hok sg fi hsg hfi true
+    obtain ⟨e'', hr', hm, h⟩ := emu_shows_across_resizes_any (caps := caps) dec cw hsp hd hemp hlp segs rows cols s e hl hok
     rw [hr] at hr'
     cases hr'
-    obtain ⟨hrs, hrc⟩ := shows_reads_back (caps := capsOf colorterm) enc dec cw fi e' ((h sg hsg).2.2 fi hfi) henc
-    refine ⟨e', per, ?_, hrs, hrc, hdraw, hlen, hcur⟩
+    obtain ⟨hrs, hrc⟩ := shows_reads_back (caps := caps) enc dec cw fi e' ((h sg hsg).2 fi hfi) henc
+    refine ⟨e', per, ?_, hm, hrs, hrc, hdraw, hlen, hcur⟩
     rw [runSegsM_eq merges cat dec cw segs s e hnm]
     exact hr
 
